@@ -68,6 +68,7 @@ type FuncSpec struct {
 	AtEntry     []AtStmt // ghost assignments executed at entry
 	PureHeap    bool     // pure, but the result depends on the (mutable) state of the objects passed: only comparable within one heap version
 	Prune       bool     // drop branches whose path condition is unsatisfiable (they are not translated)
+	NoMerge     bool     // keep the paths of this function apart at joins (no merged states)
 	AbstractFP  bool     // float64 + - * / as uninterpreted functions (formula identity only)
 	Locks       bool     // sync.Mutex / RWMutex fields modelled as ghost state of the enclosing object
 }
@@ -307,6 +308,10 @@ func (cs *Contracts) parseFile(fset *token.FileSet, f *ast.File, pkgPath string)
 		case "prune":
 			if cur != nil {
 				cur.Prune = true
+			}
+		case "nomerge":
+			if cur != nil {
+				cur.NoMerge = true
 			}
 		case "locks":
 			if cur != nil {
